@@ -51,6 +51,12 @@ CHECKS = {
         technique="differential property-based testing: operator on f_proxy(f_return(v)) vs operator on v over an enumerated value pool and Hypothesis-drawn recursive values; virtual-clock cases for the timeout clause",
         text="Every forwarded operator/conversion/attribute access is applied to the proxy and to a deep copy of the plain value; results must agree in type and value or in exception type. Failed inputs must surface their own exception; truth test/repr/str/==/hash/unknown dunders must return on a pending input; the timeout clause is decided under the virtual clock; f_nocancel is checked for every way its input can end. Exhaustive over the 33-value pool x all forwarded operators; sampled beyond.",
         design_ref="DESIGN.md section 4 (C17)", note=PLAIN_NOTE),
+    "C07": dict(
+        category="exploration",
+        technique="model-based property testing: a FIFO queue/capacity model replayed over the recorded history of Hypothesis-drawn submit/complete/cancel programs (and exhaustive single-pre-emption sweeps of catalogue programs) under the deterministic scheduler with an exact virtual clock",
+        text="ThrottleExecutor over a manual base (completion order is a program choice) or a thread pool, with a recording tap below it: at every hand-over the number handed to the delegate and not yet done must be <= the bound in force (static, or the recent values of a scripted count callable; None unlimited; a raise keeps the last value); delegate submissions follow submit order; whenever virtual time is about to advance nothing may be queued while capacity is free (so no +2 s/+30 s hand-overs); block=True submit() works for every count and is parked only while the queue holds >= count entries.",
+        design_ref="DESIGN.md section 4 (C07)", note=ENGINE_NOTE),
+
     "C14": dict(
         category="exploration",
         technique="model-based property testing: and/or fold over admissible linearisations of the completion events; exhaustive outcome x completion-order enumeration + Hypothesis-drawn concurrent completions under the deterministic scheduler",
